@@ -1,6 +1,6 @@
 import ast
 from pathlib import Path
-from typing import Dict, List, Union, cast
+from typing import Dict, List, Optional, Union, cast
 
 import isort
 from black import Mode, format_str
@@ -8,8 +8,10 @@ from graphql import (
     ExecutableDefinitionNode,
     GraphQLSchema,
     NameNode,
+    Node,
     OperationDefinitionNode,
     OperationType,
+    VariableDefinitionNode,
 )
 
 from ariadne_codegen.client_generators.comments import get_comment
@@ -100,6 +102,15 @@ class ExtractOperationsPlugin(Plugin):
             operation_name
         )
         return operation_str
+
+    def process_name(self, name: str, node: Optional[Node] = None) -> str:
+        # A method argument named like an extracted constant would shadow it
+        # inside the method (`execute(query=FIND_GQL, ...)`): rename the argument,
+        # as the generator does for its own reserved names.
+        if isinstance(node, VariableDefinitionNode):
+            while name in self._operations_variables.values():
+                name += "_"
+        return name
 
     def generate_client_module(self, module: ast.Module) -> ast.Module:
         module.body.insert(
